@@ -110,6 +110,10 @@ def plan(tier):
     fam(3, 1, 'FULL', 1, 'post', 'core')
     fam(2, 2, 'SU2', 1, 'labels', 'core')
     fam(1, 3, 'SU2', 1, 'labels', 'core')
+    for pat in ('not-and', 'cmp', 'iff-not'):
+        for L in space.DEEP_LENGTHS[tier][:2]:
+            for sto in ('fwd', 'rev'):
+                t.append({'kind': 'deep', 'pattern': pat, 'L': L, 'storage': sto})
     for t1 in ('AND', 'XOR') if tier == 'quick' else ('AND', 'OR', 'XOR'):
         for t2 in ('OR', 'GT') if tier == 'quick' else ('AND', 'OR', 'GT'):
             t.append({'kind': 'dup2', 't1': t1, 't2': t2})
@@ -133,7 +137,7 @@ def plan(tier):
 def describe(tier):
     P, _ = pipelines()
     return {
-        'rule': 'dup2: two-level duplicate structures (7 gates over 3 inputs: a duplicate pair, a pair built on them with every straight / crossed wiring, three users; 4 (thorough 9) type choices x 64 wirings x 17 output lists), all postconditions; E1: circuits of F(n,k,A) x output policies. mode labels: F(2,2,.) and F(1,3,.) over {AND,OR,XOR,NOT,IFF} with each node in turn labelled \'\' (the only falsy label) or \'0\', all postconditions. mode post (also on the same circuit with reversed storage order for the unary/chain families): postcondition predicates of the five '
+        'rule': 'deep: all postconditions on chains of 1200/3000 gates with two dead gates (three patterns, both storage orders); dup2: two-level duplicate structures (7 gates over 3 inputs: a duplicate pair, a pair built on them with every straight / crossed wiring, three users; 4 (thorough 9) type choices x 64 wirings x 17 output lists), all postconditions; E1: circuits of F(n,k,A) x output policies. mode labels: F(2,2,.) and F(1,3,.) over {AND,OR,XOR,NOT,IFF} with each node in turn labelled \'\' (the only falsy label) or \'0\', all postconditions. mode post (also on the same circuit with reversed storage order for the unary/chain families): postcondition predicates of the five '
         'passes on every result (RRG exact reachable set + idempotence, MergeDuplicate no equal signature, '
         'MergeEquivalent no equal reference table, MergeUnary negation/buffer statements on the all-negation / '
         f'all-buffer families). mode pipe: {len(P)} pipeline expressions (all a|b, all [a,b], 10 triples in 5 '
@@ -369,9 +373,24 @@ def check_dup2(acc, t1, t2):
     acc.sample({**space.spec_json(3, gates, outs), 'mode': 'post'})
 
 
+def check_deep(acc, pattern, L, storage):
+    """postconditions on a chain deeper than the recursion limit that also carries two dead gates"""
+    from cirbo.core.circuit import gate as G
+
+    c, _ = space.deep_chain(pattern, L, storage)
+    c.emplace_gate('dead0', G.NOT, (f'c{L // 2}',))
+    c.emplace_gate('dead1', G.AND, ('dead0', 'x1'))
+    net = refmodel.abstract(c)
+    spec = tuple(sorted({(t, ()) for t, _ in net.gates.values() if t != 'INPUT'}))
+    acc.states += 1
+    post_checks(3, spec, (), acc, c, net, net.tables(), 'DEEP', tag=f'deep:{pattern}:{L}:{storage}')
+
+
 def run_task(task, acc):
     if task.get('kind') == 'dup2':
         return check_dup2(acc, task['t1'], task['t2'])
+    if task.get('kind') == 'deep':
+        return check_deep(acc, task['pattern'], task['L'], task['storage'])
     alpha = ALPHAS[task['alpha']]
     for gates in space.enum_gates(task['n'], task['k'], alpha, space.prefix_from_task(task)):
         check_circuit(task['n'], gates, acc, task['mode'], task['pol'], task['alpha'])
@@ -387,6 +406,9 @@ def replay(case, acc):
         pipe_checks(n, gates, outs, acc, c, names={case['pipeline']})
     else:
         st = case.get('storage') or ''
+        if st.startswith('deep:'):
+            _, pat, L, sto = st.split(':')
+            return check_deep(acc, pat, int(L), sto)
         if st.startswith('labels:'):
             lab2 = eval(st[7:])  # noqa: S307
             c = space.build(n, gates, outs, lab2)
